@@ -122,6 +122,9 @@ theorem fillBuf_shape_fe (ops : Ops) (d : Digits FV) (a b : ℚ) (e : ℤ)
       intds ≠ [] ∧ intds.all isDig = true ∧ (intds.length = 1 ∨ intds.head? ≠ some '0') ∧
       (∀ j : ℕ, a = j → 1 ≤ j → intds.head? ≠ some '0') ∧ (a = 0 → intds = ['0']) ∧
       fracds.length = d.signCount ∧ fracds.all isDig = true ∧
+      intLoop (arithP rnd p) { cfgNow with repaired := false } ops.upper (cfgNow.size + 1) d.ip
+        { post := bf.post, sep := bf.sep,
+          body := (if (decide (d.precision ≠ 0) || decide (d.signCount ≠ 0) || ops.spec) then ['.'] else []) ++ fracds } = .ok bf ∧
       (d.withExp = false → bf.post.take (cstrlen bf.post) = []) ∧
       (d.withExp = true → intds.length = 1 ∧ ∃ ds, bf.post.take (cstrlen bf.post) =
           (if ops.upper then 'E' else 'e') :: (if decide (e < 0) then '-' else '+') :: ds ∧
@@ -180,8 +183,10 @@ theorem fillBuf_shape_fe (ops : Ops) (d : Digits FV) (a b : ℚ) (e : ℤ)
   obtain ⟨intds, bf, hrun4, hbfbody, hbfpost, hbfsep, hine, hiall, _, hihead, hilead, hi9, hi0⟩ :=
     intLoop_shape L S p cfgNow ops.upper k (cfgNow.size + 1) a b3 hk1 (by simp [cfgNow]; omega) ha0 has hak
       (by simp [cfgNow]; omega)
+  have hung := intLoop_unguarded L S p cfgNow ops.upper k (cfgNow.size + 1) a b3 hk1 (by simp [cfgNow]; omega) ha0 has hak
+      (by simp [cfgNow]; omega)
   refine ⟨bf, intds, fracds, ?_, by rw [hbfbody, hb3body]; simp, hine, hiall, hilead,
-    fun j hj hj1 => hihead ⟨j, hj, hj1⟩, hi0, hflen, hfall, ?_, ?_⟩
+    fun j hj hj1 => hihead ⟨j, hj, hj1⟩, hi0, hflen, hfall, ?_, ?_, ?_⟩
   · unfold fillBuf
     have hs0 : ¬ cfgNow.size = 0 := by simp [cfgNow]
     simp only [hs0, if_false]
@@ -192,6 +197,9 @@ theorem fillBuf_shape_fe (ops : Ops) (d : Digits FV) (a b : ℚ) (e : ℤ)
       rw [hdotc]; simp
     simp only [ne_eq, Bool.not_false, Bool.and_true] at hd' ⊢
     rw [hd', hrun3]
+    exact hrun4
+  · rw [hip, hbfpost, hbfsep, ← hb3body, ← hung]
+    obtain ⟨p3, s3, bd3⟩ := b3
     exact hrun4
   · intro hw
     rw [hbfpost, hb3post, hb1F hw]; rfl
@@ -229,7 +237,7 @@ theorem printF_shape_fe (N fuel : ℕ) (neg : Bool) (x0 : ℚ) (nanNeg : Bool) (
   rw [hd] at hd'
   injection hd' with hdd
   subst hdd
-  obtain ⟨bf', intds, fracds, hb', hbody, hine, hiall, hilead, hihead, hi0, hflen, hfall, hpostF, hpostE⟩ :=
+  obtain ⟨bf', intds, fracds, hb', hbody, hine, hiall, hilead, hihead, hi0, hflen, hfall, _, hpostF, hpostE⟩ :=
     fillBuf_shape_fe L S p ops d a b e hip hfp hep ha0 has hb0 hbs (by omega) hsc
       (fun h => by obtain ⟨i, hi, hi9, _⟩ := hE (by rw [← hwe]; exact h); exact ⟨i, hi, hi9⟩)
       (fun h => hF (by rw [← hwe]; exact h))
@@ -301,6 +309,25 @@ theorem printF_shape_fe (N fuel : ℕ) (neg : Bool) (x0 : ℚ) (nanNeg : Bool) (
     have : fracds = [] := List.eq_nil_of_length_eq_zero (by rw [hflen, hsc0])
     refine ⟨?_, by rw [hd4, he0]; rfl⟩
     rw [this]; simp
+
+/-- **the integer-digit guard never truncates** (%f, %e): the buffer `fillBuf` returns is the one the UNGUARDED
+integer-digit loop (the loop without `&& (str > &buff[0])`) produces after the fraction digits and the point: with
+the constants of the repaired code every integer part is printed completely, for every precision -/
+theorem printF_int_unguarded (N fuel : ℕ) (x0 : ℚ) (precision : ℤ) (ops : Ops)
+    (withExp : Bool) (hx : rnd x0 = some x0) (h0 : 0 ≤ x0) (hN : x0 < 10 * 8 ^ N) (hN' : x0 = 0 ∨ 1 ≤ x0 * 8 ^ N)
+    (hf : N ≤ fuel) (hNb : N + 2 ≤ 2 ^ 30) (hN999 : N + 1 ≤ 999) (hp0 : 0 ≤ precision) (hp1 : precision ≤ 2147483647) :
+    ∃ (d : Digits FV) (bf : Buf) (dotfrac : List Char),
+      digitsOf (arithP rnd p) cfgNow fuel (.fin false x0) precision ops withExp false = .ok d ∧
+      fillBuf (arithP rnd p) cfgNow ops false d = .ok bf ∧
+      intLoop (arithP rnd p) { cfgNow with repaired := false } ops.upper (cfgNow.size + 1) d.ip
+        { post := bf.post, sep := bf.sep, body := dotfrac } = .ok bf := by
+  obtain ⟨d, a, b, e, hd, hip, hfp, hep, hwe, hprec, ha0, has, hb0, hbs, he, hsc, hscP, hE, hF⟩ :=
+    digitsOf_shape_fe L S p N fuel x0 precision ops withExp hx h0 hN hN' hf hNb hp0 hp1
+  obtain ⟨bf, intds, fracds, hb, _, _, _, _, _, _, _, _, hung, _, _⟩ :=
+    fillBuf_shape_fe L S p ops d a b e hip hfp hep ha0 has hb0 hbs (by omega) hsc
+      (fun h => by obtain ⟨i, hi, hi9, _⟩ := hE (by rw [← hwe]; exact h); exact ⟨i, hi, hi9⟩)
+      (fun h => hF (by rw [← hwe]; exact h))
+  exact ⟨d, bf, _, hd, hb, hung⟩
 
 end
 end Igris.C13
